@@ -694,6 +694,16 @@ def run_corrupt(spec):
             expect_valueerror("load_cider_model:unsupported-extension", lambda p=p: load_cider_model(p, None))
         for fm in ["json", "pickle", "YAML", "", "yml", 0]:
             expect_valueerror("load_cider_model:unsupported-format", lambda fm=fm: load_cider_model(ROOT + "/m.yaml", fm))
+        # the same with joblib content: a perfectly loadable pickle under a name / format string
+        # the package does not support must be rejected too, not quietly loaded
+        joblib.dump(model, ROOT + "/m.joblib")
+        goodj = fs.read_bytes(ROOT + "/m.joblib")
+        for ext in [".pkl", ".dat", ".pickle", ".JOBLIB", ".joblib.bak", ""]:
+            p = ROOT + "/mj" + ext
+            fs.write_bytes(p, goodj)
+            expect_valueerror("load_cider_model:unsupported-extension", lambda p=p: load_cider_model(p, None))
+        for fm in ["pickle", "JOBLIB", "pkl", "job", 1]:
+            expect_valueerror("load_cider_model:unsupported-format", lambda fm=fm: load_cider_model(ROOT + "/m.joblib", fm))
         # payloads that are not mapped functionals
         import types
 
